@@ -649,6 +649,11 @@ def run_shard(ctx):
         load_user(config, work, None)
         acc.hook("_load_compilers")
         cmds = list(builtin_enum())
+        # single-dash options that are strict prefixes of a modelled flag are other options (no abbreviations), and a
+        # flag that takes no value may still be written flag=value by a real compiler (-fopenmp=libomp)
+        cmds += [("gcc", ["-f", "-DX", "a.c"]), ("gcc", ["-fopen", "a.c"]), ("g++", ["-fopenm", "-DY=1", "a.c"]), ("clang++", ["-fsycl", "-DX", "a.c"]),
+                 ("clang", ["-fsycl-is", "a.c"]), ("nvcc", ["-fopenm", "k.cu"]), ("icpx", ["-fsyc", "a.cpp"]), ("icx", ["-fsycl-target", "a.c"]),
+                 ("clang", ["-fopenmp=libomp", "-DX", "a.c"]), ("gcc", ["-fopenmp=libgomp", "a.c"]), ("clang++", ["-fopenmp=libiomp5", "-fsycl-is-device", "a.cpp"])]
         mine = [c for i, c in enumerate(cmds) if ctx.mine(i)]
         for k in range(0, len(mine), 12):
             names = {c[0] for c in mine[k:k + 12]}
